@@ -29,6 +29,7 @@ from harness.corr import c06_srt as S
 LAYOUTS_RR = [(0, 0), (1, 0), (1, 1)]
 LAYOUT_NOT_RR = (0, 1)
 BASES = (10, 16, 2)
+PARTIAL_OPTS = [(0, 0, 10, 0), (1, 1, 16, 1), (1, 0, 2, 0), (0, 1, 10, 1)]
 FINDING_SKIP_KEY = "skip-field-determines-layout-of-emitted-field"
 FINDING_ARRAY_KEY = "multiline-array-elements-not-comma-separated"
 # fixed in /repo (f572d62, b3c9cb3): the pinned inputs stay in the run, nothing is routed to them
@@ -98,12 +99,17 @@ static void RunOne(Make make, Dump dump, int multiline, int comments, int base, 
   auto v = make(b1.get(), n);
   bool ok = v.Ok();
   std::cout << "ok=" << ok;
-  if (!ok) { std::cout << "\n"; return; }
   ::emboss::TextOutputOptions o;
   o = o.Multiline(multiline != 0).WithComments(comments != 0).WithNumericBase(static_cast<uint8_t>(base))
        .WithDigitGrouping(grouping != 0);
   if (multiline) o = o.WithIndent("  ");
+  if (!ok) {
+    // allow_partial_output: "WriteToString() should never CHECK-fail"; readable atomic fields only
+    std::cout << " ptext=" << Hex(::emboss::WriteToString(v, o.WithAllowPartialOutput(true))) << "\n";
+    return;
+  }
   std::string text = have_text ? text_override : ::emboss::WriteToString(v, o);
+  if (!have_text) std::cout << " pa=" << (::emboss::WriteToString(v, o.WithAllowPartialOutput(true)) == text);
   // the text is on stdout before the reader runs: a failed CHECK / sanitizer report in
   // UpdateFromText still leaves it for the oracles
   std::cout << " text=" << Hex(text) << std::flush;
@@ -243,7 +249,7 @@ def order_names(ir_struct):
     return [fields[int(i)]["name"]["name"]["text"] for i in ir_struct.get("fields_in_dependency_order", [])]
 
 
-def compare_tree(node, parsed, orders, where, problems, int_checks):
+def compare_tree(node, parsed, orders, where, problems, int_checks, partial=False):
     """node: expected (from the generator); parsed: from the real text."""
     kind = node[0]
     if kind == "scalar":
@@ -280,19 +286,30 @@ def compare_tree(node, parsed, orders, where, problems, int_checks):
         else:
             problems.append("%s: expected an array, got %s" % (where, parsed[0]))
             return
-        if [i for i, _ in got] != list(range(len(items))):
-            problems.append("%s: array indices %r, expected 0..%d" % (where, [i for i, _ in got][:20], len(items) - 1))
+        idxs = [i for i, _ in got]
+        if partial:
+            # allow_partial_output: unreadable elements are left out; what is there must be right
+            if idxs != sorted(set(idxs)) or any(i >= len(items) for i in idxs):
+                problems.append("%s: array indices %r in a partial text, array has %d elements" % (
+                    where, idxs[:20], len(items)))
+                return
+            for i, p in got:
+                compare_tree(items[i], p, orders, "%s[%d]" % (where, i), problems, int_checks, True)
+            return
+        if idxs != list(range(len(items))):
+            problems.append("%s: array indices %r, expected 0..%d" % (where, idxs[:20], len(items) - 1))
             return
         for (i, p), it in zip(got, items):
             compare_tree(it, p, orders, "%s[%d]" % (where, i), problems, int_checks)
         return
     if kind == "struct":
-        compare_struct(node[1], node[2] if len(node) > 2 else None, parsed, orders, where, problems, int_checks)
+        compare_struct(node[1], node[2] if len(node) > 2 else None, parsed, orders, where, problems, int_checks,
+                       partial)
         return
     raise AssertionError(kind)
 
 
-def compare_struct(tree, stname, parsed, orders, where, problems, int_checks):
+def compare_struct(tree, stname, parsed, orders, where, problems, int_checks, partial=False):
     real = [(n, x) for n, x in tree if x[0] != "comment"]
     if parsed[0] == "empty":
         got = []
@@ -308,7 +325,12 @@ def compare_struct(tree, stname, parsed, orders, where, problems, int_checks):
         pos = {n: i for i, n in enumerate(orders[stname])}
         want = sorted(want, key=lambda n: pos.get(n, 1 << 30))
     names = [n for n, _ in got]
-    if names != want:
+    if partial:
+        it = iter(want)
+        if not all(any(n == w for w in it) for n in names):
+            problems.append("%s: field names in a partial text %r are not a subsequence of %r" % (where, names, want))
+            return
+    elif names != want:
         missing = [n for n in want if n not in names]
         extra = [n for n in names if n not in want]
         problems.append("%s: field names in text %r, expected %r (missing %r, unexpected %r)" % (
@@ -316,7 +338,7 @@ def compare_struct(tree, stname, parsed, orders, where, problems, int_checks):
         return
     exp = dict(real)
     for n, p in got:
-        compare_tree(exp[n], p, orders, "%s.%s" % (where, n) if where else n, problems, int_checks)
+        compare_tree(exp[n], p, orders, "%s.%s" % (where, n) if where else n, problems, int_checks, partial)
 
 
 class NoWval(Exception):
@@ -443,7 +465,8 @@ def prepare_module(mod):
 
 
 def tops_of(mod):
-    return [t for t in mod.types if t.kind == "struct"]
+    """Structs driven as top-level views (structs with runtime parameters only as members)."""
+    return [t for t in mod.types if t.kind == "struct" and not t.params]
 
 
 def option_sets(tier, r):
@@ -579,6 +602,42 @@ def judge_roundtrip(kv, built, d1, d2):
     return problems
 
 
+def judge_partial(prep, st, built, opt, trunc, line, stats):
+    """allow_partial_output (doc/cpp-reference.md) on the first `trunc` bytes of an Ok buffer: no
+    CHECK failure (the driver would have died), unreadable atomic fields are left out (mentioned
+    only in comments), and whatever is written is a field the full text has, with the value the
+    full buffer has, after the fields it depends on."""
+    kv = dict(x.split("=", 1) for x in line.split(" ") if "=" in x)
+    m, c, b, g = opt
+    stats["partial_cases"] = stats.get("partial_cases", 0) + 1
+    if kv.get("ok") == "1":
+        stats["partial_truncated_view_still_ok"] = stats.get("partial_truncated_view_still_ok", 0) + 1
+        return []
+    if "ptext" not in kv:
+        return ["PARTIAL: no text produced"]
+    text = I.unhex(kv["ptext"])
+    problems = []
+    if not c and "UNREADABLE" in text:
+        problems.append("PARTIAL: UNREADABLE mentioned although comments are off")
+    if (m, c) != LAYOUT_NOT_RR:
+        try:
+            parsed, _ = parse_text(text)
+        except ParseError as e:
+            return problems + ["PARTIAL: text does not parse: %s" % e]
+        sub = []
+        tree = attach_struct_names(st, built.tree)
+        compare_struct(tree, st.name, parsed, prep["orders"], "", sub, [], partial=True)
+        if parsed[0] == "struct":
+            check_intended_order(st, [n for n, _ in parsed[1]], sub, st.name)
+            if parsed[1]:
+                stats["partial_texts_with_fields"] = stats.get("partial_texts_with_fields", 0) + 1
+        D.check_text(prep["dep_table"], D.find_struct(prep["dep_table"], st.name), parsed, "", sub)
+        problems += ["PARTIAL: " + p for p in sub]
+    if "UNREADABLE" in text:
+        stats["partial_texts_with_unreadable_comment"] = stats.get("partial_texts_with_unreadable_comment", 0) + 1
+    return problems
+
+
 def judge(prep, st, built, opt, line, stats, int_checks, tok_texts, wvals=None):
     """Evaluates one driver answer against the property statement.
     Returns (problems, parsed tree or None, kv)."""
@@ -598,6 +657,8 @@ def judge(prep, st, built, opt, line, stats, int_checks, tok_texts, wvals=None):
         stats.setdefault("intended_value_mismatch_examples", [])
         if len(stats["intended_value_mismatch_examples"]) < 3:
             stats["intended_value_mismatch_examples"].append({"struct": st.name, "diff": bad[:4]})
+    if kv.get("pa") == "0":
+        problems.append("allow_partial_output changes the text of an Ok view")
     parsed = None
     if rr:
         # 1. the text parses and has the expected shape / order / values
@@ -675,7 +736,14 @@ def run_modules(chk, mods, buffers_per_struct, r, model_ok, tier, compiler="clan
             for built in builts:
                 for opt in opts:
                     lines.append("%s %d %d %d %d %s" % ((st.name,) + opt + (bytes(built.buf).hex() or "-",)))
-                    meta.append((st, built, opt))
+                    meta.append((st, built, opt, None))
+                # allow_partial_output on views that are not Ok: the same bytes, truncated
+                n = len(built.buf)
+                for k in sorted({n - 1, n - 2, n // 2, 1, 0}):
+                    if 0 <= k < n:
+                        for opt in PARTIAL_OPTS:
+                            lines.append("%s %d %d %d %d %s" % ((st.name,) + opt + (bytes(built.buf[:k]).hex() or "-",)))
+                            meta.append((st, built, opt, k))
         run_items.append((binary, "\n".join(lines) + "\n"))
         metas.append((mod, origin, prep, meta, lines))
     results = run_many_long(run_items, workers=6)
@@ -706,10 +774,25 @@ def run_modules(chk, mods, buffers_per_struct, r, model_ok, tier, compiler="clan
             if len(out) != len(lines):
                 raise common.InfraError("TXT driver answered %d lines for %d ops" % (len(out), len(lines)))
         reported = set()
-        for ci, ((st, built, opt), ln, ans) in enumerate(zip(meta, lines, out)):
+        for ci, ((st, built, opt, trunc), ln, ans) in enumerate(zip(meta, lines, out)):
             if ans is None:
                 continue
             chk.count()
+            if trunc is not None:
+                pp = judge_partial(prep, st, built, opt, trunc, ans, stats)
+                if pp:
+                    sig = (st.name, "partial", pp[0][:40])
+                    if sig not in reported:
+                        reported.add(sig)
+                        kvp = dict(x.split("=", 1) for x in ans.split(" ") if "=" in x)
+                        chk.violation("input", {
+                            "part": "TXT", "origin": origin, "emb": prep["text"], "struct": st.name,
+                            "buffer": bytes(built.buf[:trunc]).hex(), "truncated_from": bytes(built.buf).hex(),
+                            "options": dict(zip(("multiline", "comments", "base", "grouping"), opt)),
+                            "allow_partial_output": True, "text": I.unhex(kvp.get("ptext", "")), "observed": pp[:6],
+                            "expected": "with allow_partial_output the text of a view that is not Ok holds only "
+                                        "readable fields, with their values, in dependency order"})
+                continue
             problems, parsed, kv = judge(prep, st, built, opt, ans, stats, int_checks, tok_texts,
                                          wvals if model_ok else None)
             if problems is None:
@@ -736,7 +819,7 @@ def run_modules(chk, mods, buffers_per_struct, r, model_ok, tier, compiler="clan
         if len(chk.cov["samples"]) < 5 and out and out[0]:
             kv = dict(x.split("=", 1) for x in out[0].split(" ") if "=" in x)
             if "text" in kv:
-                chk.sample({"struct": meta[0][0].name, "options": meta[0][2], "buffer": lines[0].split(" ")[-1],
+                chk.sample({"struct": meta[0][0].name, "options": meta[0][2], "buffer": lines[0].split(" ")[5],
                             "text": I.unhex(kv["text"])[:400]})
     # second pass: multi-line texts hit by the known array finding are re-read with commas added,
     # so that the rest of the round trip is still judged
@@ -751,7 +834,7 @@ def run_modules(chk, mods, buffers_per_struct, r, model_ok, tier, compiler="clan
         out = res.out.split("\n")[:-1]
         reported = set()
         for (ci, ln), ans in zip(second[mi], out):
-            st, built, opt = meta[ci]
+            st, built, opt, _trunc = meta[ci]
             chk.count()
             stats["second_pass_with_commas"] = stats.get("second_pass_with_commas", 0) + 1
             kv = dict(x.split("=", 1) for x in ans.split(" ") if "=" in x)
@@ -945,6 +1028,10 @@ def struct_features(st):
             out.add("dynamic_array")
         if f.dyn_offset:
             out.add("dynamic_offset")
+        if f.args:
+            out.add("member_with_runtime_parameters")
+            if any(isinstance(a, str) and a in by and by[a].virtual for a in f.args):
+                out.add("runtime_parameter_through_virtual")
         if f.anonymous_bits is not None:
             out.add("anonymous_bits")
         if f.virtual:
